@@ -131,6 +131,30 @@ def make_comm_program(cfg):
                                     w(fb)))
                     members = list(range(world_n)) if g is None else \
                         list(range(1, world_n))
+                    # two DIFFERENT same-shaped symmetric tensors in flight
+                    # at once (nobody waits in between)
+                    x2 = with_layout(comm_data(rank, n, dtype, (n + 1) % 3,
+                                               seed), layout)
+                    f1 = tdc.allreduce(x.clone(), group=g, symmetric=True)
+                    f2 = tdc.allreduce(x2.clone(), group=g, symmetric=True)
+                    d1 = tdc.allreduce(x.clone(), group=g, symmetric=False)
+                    d2 = tdc.allreduce(x2.clone(), group=g, symmetric=False)
+                    out.append(('allreduce', n, gi, layout, False, w(f1),
+                                w(d1)))
+                    out.append(('allreduceP', n, gi, layout, False, w(f2),
+                                w(d2)))
+                    src = members[-1]
+                    z = torch.zeros_like(x).contiguous()
+                    f1 = tdc.broadcast((x if rank == src else z).clone(),
+                                       src=src, group=g, symmetric=True)
+                    f2 = tdc.broadcast((x2 if rank == src else z).clone(),
+                                       src=src, group=g, symmetric=True)
+                    d2 = tdc.broadcast((x2 if rank == src else z).clone(),
+                                       src=src, group=g, symmetric=False)
+                    out.append(('broadcastP', n, gi, layout, src, w(f2),
+                                w(d2)))
+                    out.append(('broadcast', n, gi, layout, src, w(f1),
+                                w(f1)))
                     for src in (members[0], members[-1]):
                         xs = x.clone() if rank == src else \
                             torch.zeros_like(x).contiguous()
@@ -154,12 +178,13 @@ def comm_oracle(cfg):
             for kind, n, gi, layout, flag, a, b in out or []:
                 members = list(range(world_n)) if gi == 0 else \
                     list(range(1, world_n))
-                if kind == 'broadcast':
-                    exp = comm_data(flag, n, dtype, n % 3, seed)
+                pat = (n + 1) % 3 if kind.endswith('P') else n % 3
+                if kind.startswith('broadcast'):
+                    exp = comm_data(flag, n, dtype, pat, seed)
                 else:
-                    exp = comm_data(members[0], n, dtype, n % 3, seed).clone()
+                    exp = comm_data(members[0], n, dtype, pat, seed).clone()
                     for m in members[1:]:
-                        exp = exp + comm_data(m, n, dtype, n % 3, seed)
+                        exp = exp + comm_data(m, n, dtype, pat, seed)
                     if flag:
                         exp = (1 / len(members)) * exp
                 for nm, t in (('symmetric', a), ('dense', b)):
@@ -331,6 +356,11 @@ def main(run: core.Run):
     thorough = run.tier == 'thorough'
     nmax = 512 if thorough else 96
     pure = [(n, d, run.seed) for n in range(1, nmax + 1) for d in DT]
+    # large sizes around powers of two (size-dependent code paths)
+    big = [127, 128, 129, 255, 256, 257, 511, 512, 513, 640, 1023, 1024,
+           1025] + ([1536, 2047, 2048, 2049, 3000, 4096] if thorough else [])
+    pure += [(n, d, run.seed) for n in big if n > nmax
+             for d in (('f32', 'f64') if n > 1100 else DT)]
     core.pmap(run, pure_case, pure, weight=lambda it: it[0] ** 2 + 50)
     comm = []
     nmaxc = 12 if thorough else 7
@@ -358,7 +388,7 @@ def main(run: core.Run):
     core.pmap(run, bad_case, bad)
     run.c['distinct_nontrivial'] = len(run.distinct.get('nontrivial', ()))
     run.rule = (
-        f'pure: every n in 1..{nmax} x 4 floating dtypes x 3 layouts x 4 '
+        f'pure: every n in 1..{nmax} and {len(big)} sizes around powers of two up to {max(big)} x 4 floating dtypes x 3 layouts x 4 '
         'position- / exponent-revealing symmetric patterns (bitwise compare), fill_triu(get_triu(x)) '
         'bit-equal x; comm: symmetric vs dense allreduce / bucketed / '
         f'broadcast for n in 1..{nmaxc} in simulated worlds 2,3 (world and '
